@@ -223,6 +223,7 @@ def c01_selection(out):
     eng = engine()
     obl = e3.Obligations("C01")
     tr = {"Template::build_eq_expr", "Template::build_partial_cmp_expr", "Template::build_cmp_expr", "Template::build_hash_stmt", "ToTokens::Expr::to_tokens"}
+    ex_by_trait = {}
     for trait, fname in (("PartialEq", "build_partial_eq_expr"), ("PartialOrd", "build_partial_ord_expr"), ("Ord", "build_ord_expr"), ("Hash", "build_hash_expr")):
         ex = eng.executor(trace=tr, opaque_local={"ItemSourceKind::this_of", "ItemSourceKind::self_of", "ItemSourceKind::other_of", "FieldEntry::make_ident", "FieldEntry::span",
                                                    "Template::build_eq_expr", "Template::build_partial_cmp_expr", "Template::build_cmp_expr", "Template::build_hash_stmt"})
@@ -230,6 +231,7 @@ def c01_selection(out):
         pre = [z3.Not(ex.bvar("use_bounds"))]
         res = ex.run(fn, eng.args_for(fn), pre=pre)
         obl.note_paths(fname, res, ex)
+        ex_by_trait[trait] = ex
         fa = FieldAtoms(ex, "field")
         for r in res:
             if r.kind != "return" or is_err(r):
@@ -256,12 +258,69 @@ def c01_selection(out):
             obl.check_unsat(ex, "is_reverse:err", list(r.pc) + [z3.Not(z3.And(op == 0, rv("partial_ord")))], info=("rev", "err"))
         else:
             v = r.value.fields[0]
-            v = v if z3.is_expr(v) else z3.BoolVal(bool(v))
+            if isinstance(v, mx.Sym):
+                v = ex.bvar(mx.pstr(v.path))
+            elif not z3.is_expr(v):
+                if not isinstance(v, bool):
+                    out.inconclusive.append("fn=is_reverse reason=value is %r" % (v,))
+                    continue
+                v = z3.BoolVal(v)
             want = z3.If(op == 0, rv("ord"), z3.Or(rv("partial_ord"), rv("ord")))
             obl.check_unsat(ex, "is_reverse:value", list(r.pc) + [v != want], info=("rev", "value"))
             obl.check_unsat(ex, "is_reverse:ok", list(r.pc) + [z3.And(op == 0, rv("partial_ord"))], info=("rev", "ok"))
+    # a failed obligation is an alarm only if the real expansion of the model's attributes uses another comparator than the documented one
+    from . import replay_e3
+    from .mir import cmpcfg as cc
+    seen = set()
     for label, m, info in obl.failed:
-        out.violation("e3|%s" % label, "-", "MIR path of %s disagrees with the documented precedence / reverse rule (%s)" % (label, info))
+        if info[0] == "rev":
+            keyattrs = [a for a in ("ord", "partial_ord") if z3.is_true(m.eval(ex.ivar("disc(self.%s.reverse.span)" % a, 0, 1) == 1, model_completion=True))]
+            ordop = z3.is_true(m.eval(op == 0, model_completion=True))
+            attrs = " ".join("#[%s(reverse)]" % a for a in keyattrs)
+            trait = "Ord" if ordop else "PartialOrd"
+            item = "struct X { %s a: u8 }" % attrs
+            # documented: Ord is reversed by ord(reverse) only and refuses partial_ord(reverse); PartialOrd by either
+            if ordop and "partial_ord" in keyattrs:
+                case = {"property": "C01", "kind": "reject_trait", "trait": "Ord", "mode": "attr", "attr": "Ord, PartialOrd, Eq, PartialEq", "item": item, "expected_reject": True}
+            else:
+                rev = ("ord" in keyattrs) if ordop else bool(keyattrs)
+                method = "cmp" if ordop else "partial_cmp"
+                needle = r"fn %s \(.*?:: %s \(& \(\(other \. a\)\) , & \(\(self \. a\)\)\)" % (method, method)
+                case = {"property": "C01", "kind": "matches", "mode": "attr", "attr": "Ord, PartialOrd, Eq, PartialEq", "item": item, "regex": needle, "expected": rev, "where": "out"}
+        else:
+            trait, used = info
+            fa = FieldAtoms(ex_by_trait[trait], "field")
+            attrs = fa.attrs_from_model(m, with_bounds=False)
+            tvb = lambda e: z3.is_true(m.eval(e, model_completion=True))
+            doc = None
+            for a in cc.PREC[trait]:
+                for how in (("key",) if (trait == "Hash" and a != "hash") else ("by", "key")):
+                    if doc is None and tvb(fa.by(a) if how == "by" else fa.key(a)):
+                        doc = (a, how)
+            item = "struct X { %s a: NotEq }" % " ".join(attrs)
+            marker = lambda a, how: ("f_%s" % a) if how == "by" else (r"k_%s \(\)" % a)
+            method = {"PartialEq": "eq", "PartialOrd": "partial_cmp", "Ord": "cmp", "Hash": "hash"}[trait]
+            body = r"fn %s [(<].*?(?=# \[automatically_derived\]|$)" % method
+            if doc is None and tvb(fa.any_custom()):
+                # a comparator customised for other traits only: the default implementation must be refused for this one (A.4)
+                case = {"property": "C01", "kind": "reject_trait", "trait": trait, "mode": "attr", "attr": "Ord, PartialOrd, Eq, PartialEq, Hash", "item": item, "expected_reject": True}
+            elif doc is None:
+                case = {"property": "C01", "kind": "matches", "mode": "attr", "attr": "Ord, PartialOrd, Eq, PartialEq, Hash", "item": item, "regex": body.replace(".*?", "(?:(?!k_|f_).)*?", 1), "expected": True, "where": "out"}
+            else:
+                case = {"property": "C01", "kind": "matches", "mode": "attr", "attr": "Ord, PartialOrd, Eq, PartialEq, Hash", "item": item,
+                        "regex": r"impl :: core :: [a-z]+ :: %s for X \{ fn %s [(<](?:(?!automatically_derived).)*?%s" % (trait if trait != "Hash" else "Hash", method, marker(*doc)), "expected": True, "where": "out"}
+        key = "e3|%s|%s" % (label, common.norm(case["item"])[:80])
+        if key in seen:
+            continue
+        seen.add(key)
+        obs = replay_e3.observe(case)
+        if trait in obs.get("rejected_traits", []) and case["kind"] != "reject_trait":
+            e3.not_reproduced(out, m, "for %s: the macro refuses %s for %s" % (label, trait, case["item"]))
+        elif replay_e3.disagrees(case, obs):
+            path = e3.write_replay("C01", "sel-%d" % len(seen), dict(case, explain="MIR path of %s disagrees with the documented precedence / reverse rule (%s)" % (label, info)))
+            out.violation(key, path, "%s uses another comparator / direction than documented for: #[derive_ex(%s)] %s" % (trait, case["attr"], case["item"]))
+        else:
+            e3.not_reproduced(out, m, "for %s (%s): the real expansion follows the documented rule on %s" % (label, info, case["item"]))
     try:
         c01_to_index(out, obl)
     except mx.Inconclusive as e:
@@ -353,15 +412,40 @@ def c09_kernels(out):
                 out.inconclusive.append("fn=to_ref_elem reason=%s" % (r.value,))
                 continue
             flag = r.value.fields[1]
-            flag = flag if z3.is_expr(flag) else z3.BoolVal(bool(flag))
+            if isinstance(flag, mx.Sym):
+                flag = ex.bvar(mx.pstr(flag.path))
+            elif not z3.is_expr(flag):
+                if not isinstance(flag, bool):
+                    out.inconclusive.append("fn=to_ref_elem reason=flag is %r" % (flag,))
+                    continue
+                flag = z3.BoolVal(flag)
             obl.check_unsat(ex, "to_ref_elem:is-ref", list(r.pc) + [flag != want], info="base form detection")
             elem = "ty.<Reference>.0.3" in ex.summ(mx.State(), r.value.fields[0])
             obl.check_unsat(ex, "to_ref_elem:elem", list(r.pc) + [want if not elem else z3.Not(want)], info="referent")
     else:
         out.inconclusive.append("fn=to_ref_elem reason=syn::Type variant order not found")
     for label, m, info in obl.failed:
-        out.violation("e3|%s" % label, "-", "MIR path of %s disagrees with the documented operand adaptation (%s)" % (label, info))
+        # decided together with the E1 programs of C09 (e1.finish): on its own a kernel failure may only mean that the executor's reading of the tokens no longer fits
+        if not hasattr(out, "pending"):
+            out.pending = []
+        out.pending.append(("e3|%s" % label, "MIR path of %s disagrees with the documented operand adaptation (%s)" % (label, info)))
     return obl
+
+
+def _name_table_failure(out, key, what, nm):
+    """an operator name-table obligation failed: alarm only if deriving that operator natively gives another trait / method than its name says"""
+    from . import replay_e3
+    base = nm[:-6] if nm.endswith("Assign") else nm
+    meth = {"BitAnd": "bitand", "BitOr": "bitor", "BitXor": "bitxor"}.get(base, base.lower()) + ("_assign" if nm.endswith("Assign") else "")
+    case = {"property": "C08", "kind": "matches", "mode": "attr", "attr": nm, "item": "struct X(u8);", "where": "out", "expected": True,
+            "regex": r"impl :: core :: ops :: %s (?:< [^{]*?> )?for X \{ (?:type Output = X ; )?fn %s \(" % (nm, meth), "explain": what}
+    obs = replay_e3.observe(case)
+    if replay_e3.disagrees(case, obs):
+        out.violation(key, e3.write_replay("C08", "name-" + nm, case), what + "; natively #[derive_ex(%s)] struct X(u8); does not give `impl ::core::ops::%s .. fn %s`" % (nm, nm, meth))
+    else:
+        msg = "structure not recognised: %s [deriving %s natively gives the trait and method of that name]" % (what, nm)
+        if msg not in out.inconclusive:
+            out.inconclusive.append(msg)
 
 
 def c08_tables(out):
@@ -385,7 +469,7 @@ def c08_tables(out):
                 if got == [want]:
                     obl.discharged += 1
                 else:
-                    out.violation("name-table|%s::%s(%s)" % (ty, meth, nm), "-", "%s::%s(%s) = %s, expected %s" % (ty, meth, nm, got, want))
+                    _name_table_failure(out, "name-table|%s::%s(%s)" % (ty, meth, nm), "%s::%s(%s) = %s, expected %s" % (ty, meth, nm, got, want), nm)
             ex = eng.executor()
             fn = eng.find("%s::from_str" % ty)
             res = ex.run(fn, [mx.Agg("str", None, None, [], extra=nm)])
@@ -395,7 +479,7 @@ def c08_tables(out):
             if got == [("Some", nm)]:
                 obl.discharged += 1
             else:
-                out.violation("name-table|%s::from_str(%s)" % (ty, nm), "-", "%s::from_str(\"%s\") = %s" % (ty, nm, got))
+                _name_table_failure(out, "name-table|%s::from_str(%s)" % (ty, nm), "%s::from_str(\"%s\") = %s" % (ty, nm, got), nm)
     # DeriveItemKind::from_str: `XAssign` -> AssignOp(X), `X` -> BinaryOp(X) / UnaryOp(X), and the trait path is ::core::ops::<name>
     for nm in names["BinaryOp"] + names["UnaryOp"]:
         for suffix, kind in (("", "BinaryOp" if nm in names["BinaryOp"] else "UnaryOp"), ("Assign", "AssignOp")):
@@ -416,7 +500,7 @@ def c08_tables(out):
             if got == [(kind, nm)]:
                 obl.discharged += 1
             else:
-                out.violation("name-table|DeriveItemKind::from_str(%s)" % (nm + suffix), "-", "DeriveItemKind::from_str(\"%s\") = %s, expected %s(%s)" % (nm + suffix, got, kind, nm))
+                _name_table_failure(out, "name-table|DeriveItemKind::from_str(%s)" % (nm + suffix), "DeriveItemKind::from_str(\"%s\") = %s, expected %s(%s)" % (nm + suffix, got, kind, nm), nm + suffix)
     return obl
 
 
